@@ -454,6 +454,11 @@ def m_pack(interp, fmt, *vals):
 
 
 def m_str_join(interp, sep, it):
+    hook = getattr(interp, "_join_hook", None)
+    if hook is not None:
+        r = hook(interp, sep, it)
+        if r is not None:
+            return r
     pieces = []
     first = True
     for x in interp.iterate(it):
@@ -1115,6 +1120,21 @@ def install(interp):
     m[("getitem", SBytes)] = _sbytes_getitem
     m[("dictkey", SymStr)] = _dict_contains_symstr
     m[("dictkey_get", SymStr)] = _dict_get_symstr
+    import itertools as _it
+
+    class _Itertools(object):
+        def __getattr__(self, name):
+            if name == "zip_longest":
+                def zl(*a, **k):
+                    h = getattr(interp, "_zip_longest_hook", None)
+                    if h is not None:
+                        r = h(interp, *a)
+                        if r is not None:
+                            return r
+                    return _it.zip_longest(*a, **k)
+                return zl
+            return getattr(_it, name)
+    interp.external["itertools"] = _Itertools()
     from . import npmodel, absarr
     npmodel.install(interp, m)
     absarr.install(interp)
